@@ -86,7 +86,7 @@ func (x *Exec) havocUnknown(st *State, what string) {
 		}
 	}
 	alloc := x.alloc(st)
-	st.havocAll()
+	st.havocExcept(func(n string) bool { return strings.HasPrefix(n, "ghost:") })
 	x.assume(st, mkLe(alloc, x.alloc(st)))
 	for _, ax := range x.env.con.Axioms {
 		ce := &cenv{x: x, st: st, old: st, vars: map[string]cvar{}}
@@ -251,6 +251,9 @@ func (x *Exec) applyContract(fr *Frame, st *State, con *FuncContract, fn *ssa.Fu
 		x.unit.Trusted[key] = true
 	}
 	pre := st.clone()
+	if con.Flags["counted"] != "" {
+		x.countCall(st, key, args)
+	}
 	// havoc modifies
 	if con.Flags["pure"] == "" {
 		mods := x.evalModifies(&cenv{x: x, st: pre, old: pre, vars: vars}, con.Modifies)
@@ -282,6 +285,19 @@ func (x *Exec) applyContract(fr *Frame, st *State, con *FuncContract, fn *ssa.Fu
 		x.assume(st, post.evalBool(cl.Expr))
 	}
 	return rv
+}
+
+// countCall: ghost counter of calls of a function, per receiver/first-argument object.
+func (x *Exec) countCall(st *State, key string, args []Val) {
+	ref := mkInt(0)
+	if len(args) > 0 {
+		if p, ok := args[0].(*PtrVal); ok && p.Base == PObj && len(p.Path) == 0 {
+			ref = mkIte(p.Nilc, mkInt(0), p.Ref)
+		}
+	}
+	hn := "ghost:calls:" + key
+	h := st.H(hn, arraySort(sortInt, sortInt))
+	st.setH(hn, mkStore(h, ref, mkAdd(mkSelect(h, ref), mkInt(1))))
 }
 
 // ---- modifies ----
@@ -1002,6 +1018,16 @@ func (x *Exec) onChanSend(fr *Frame, st *State, ch *Term, v Val, et types.Type, 
 	key := x.chanKey(chv)
 	if key == "" {
 		return
+	}
+	{
+		hn := "ghost:sends:" + key
+		h := st.H(hn, arraySort(sortInt, sortInt))
+		st.setH(hn, mkStore(h, ch, mkAdd(mkSelect(h, ch), mkInt(1))))
+		// the last value sent (as an integer: object pointers only)
+		if p, ok := v.(*PtrVal); ok && p.Base == PObj && len(p.Path) == 0 {
+			ln := "ghost:lastsent:" + key
+			st.setH(ln, mkStore(st.H(ln, arraySort(sortInt, sortInt)), ch, p.Ref))
+		}
 	}
 	con := x.env.con.Callbacks["chan:"+key]
 	if con == nil {
